@@ -15,7 +15,7 @@ Extraction "model.ml"
   group_func_wrap apply_single_chunk reduce_array_pair combine_factorized
   spec_reduce red_exec sel_rows
   find_nth find_first_or_last_n nth_spec first_n_spec last_n_spec
-  cumulative cumulative_t cum_spec cumsum_noskip_spec
+  cumulative cumulative_t cum_spec cumsum_noskip_spec cumext_noskip_spec
   rolling_sum_or_mean rolling_max_or_min rolling_shift_or_diff window_spec shift_spec
   add_row_margin group_mean_ticks var_bound nan_reduce nb_reduce row_mask mask_labels bin_code
   validate_lengths_and_indexes preprocess_ok
